@@ -1857,7 +1857,8 @@ func genStruct(r *hx.Rand, d int, req bool) TX {
 					"header": {"simple"}, "cookie": {"form"}}[loc]
 				v := hx.Pick(r, st)
 				if r.Chance(1, 6) {
-					v = hx.Pick(r, []string{"form", "simple", "deepObject", "bogus"}) // possibly not admissible for the location
+					// possibly not admissible for the location; an admissible one in another spelling is not admissible either
+					v = hx.Pick(r, []string{"form", "simple", "deepObject", "bogus", "deepobject", "PipeDelimited", "Simple", "FORM", "Matrix"})
 				}
 				tags = append(tags, fmt.Sprintf(`style:"%s"`, v))
 			}
@@ -2081,7 +2082,12 @@ func genCase(r *hx.Rand) caseT {
 		n = 0
 	}
 	for i := 0; i < n; i++ {
-		c.Ops = append(c.Ops, genOp(r))
+		o := genOp(r)
+		if i > 0 && r.Chance(1, 6) {
+			// the same route under another method: operations of one path item, built one after the other
+			o.Path = c.Ops[r.Intn(i)].Path
+		}
+		c.Ops = append(c.Ops, o)
 	}
 	if r.Chance(1, 5) {
 		c.Cfg = genCfg(r, c.V31)
@@ -2182,6 +2188,12 @@ func fixedCases() []caseT {
 				{Ctor: "POST", Path: "/up/:id", Summary: "s", Req: &TX{K: "req", I: 0}, Cons: []string{"application/json, application/xml"}, Resps: ok(ct("pa.Item"))},
 				{Ctor: "PUT", Path: "/up/:id", Summary: "s", Req: &TX{K: "req", I: 0}, Cons: []string{"multipart/form-data; boundary", ""}, Prod: []string{"application/xml", "application/json"}, Resps: ok(ct("pa.Item"))},
 				{Ctor: "PATCH", Path: "/up/:id", Summary: "s", Req: &TX{K: "req", I: 0}, Cons: []string{""}}}},
+			// two operations of one path item: the first declares the path parameter in its request struct, the
+			// second has a body-only request struct — each gets its own `id` path parameter
+			caseT{V31: v31, Ops: []opT{
+				{Ctor: "GET", Path: "/pt/:id", Summary: "s", Req: &TX{K: "struct", F: []FX{{Name: "ID", Tag: `path:"id"`, T: TX{K: "prim", P: "int"}}}}},
+				{Ctor: "PUT", Path: "/pt/:id", Summary: "s", Req: &TX{K: "struct", F: []FX{{Name: "Name", Tag: `json:"name"`, T: TX{K: "prim", P: "string"}}}}},
+				{Ctor: "OPTIONS", Path: "/pt/:id", Summary: "s"}}},
 			// info.summary (a 3.1 member): kept for 3.1, dropped for 3.0, an error for 3.0 under StrictDownlevel
 			caseT{V31: v31, Strict: true, Cfg: &cfgT{Summary: "Users and orders"}, Ops: []opT{{Ctor: "GET", Path: "/sm", Summary: "s", Resps: ok(ct("pa.Item"))}}},
 			caseT{V31: v31, Cfg: &cfgT{Summary: "Users and orders", Desc: "An API"}, Ops: []opT{{Ctor: "GET", Path: "/sm", Summary: "s", Resps: ok(ct("pa.Item"))}}},
